@@ -1,4 +1,5 @@
 import AmrK.Pipeline
+import AmrK.PipelineLevels
 import AmrK.HeaderCodec
 import AmrK.CellHCodec
 /-! # C14 — tool outputs are valid tool inputs: pipelines equal the composed pure operations
@@ -58,5 +59,17 @@ example :
       [.strain [2, 0], .cook [1] (fun c => [c.foldl (· + ·) 0]),
        .combine [⟨"z", 0, 8, 80, 80, [7]⟩, ⟨"y", 0, 8, 80, 80, [8]⟩] [1, 0] [0]])
       = [[4, 1, 7], [10, 4, 8]] := by decide +kernel
+
+/-- **whole plotfiles** (any number of levels; colander's level limit cuts the levels after it, chef cooks every level,
+    combine works level by level and leaves its input alone when the other plotfile has another number of levels or of boxes
+    in some level): for every finite operation sequence the contents of every level of the final plotfile are what the same
+    sequence of pure operations yields on the contents of the starting plotfile -/
+theorem pipeline_refines_levels (ops : List PipelineLevels.Op) (s : PipelineLevels.Plt) :
+    PipelineLevels.content (run PipelineLevels.step s ops) = run PipelineLevels.pureStep (PipelineLevels.content s) ops :=
+  PipelineLevels.pipeline_refines ops s
+
+theorem strain_keeps_levels_up_to_limit (s : PipelineLevels.Plt) (kept : List Nat) (limit : Nat) :
+    (PipelineLevels.step s (.strain kept limit)).length = min (limit + 1) s.length :=
+  PipelineLevels.strain_levels s kept limit
 
 end C14
